@@ -133,7 +133,7 @@ EXN_NAMES = {
     "UnicodeDecodeError": "UnicodeErr", "UnicodeEncodeError": "UnicodeErr", "UnicodeError": "UnicodeErr",
     "UnboundLocalError": "UnboundErr", "RuntimeError": "RuntimeErr", "OSError": "OSErr",
     "AssertionError": "AssertErr", "AttributeError": "AttrErr", "OverflowError": "OverflowErr",
-    "StopIteration": "StopIter",
+    "StopIteration": "StopIter", "FilerError": "OtherErr", "TimeoutError": "OSErr",
 }
 
 
@@ -159,11 +159,36 @@ def _run(cmd, cwd=None, timeout=1800, env=None):
     return p.returncode, p.stdout, time.time() - t0
 
 
-def audit_sources():
-    """Grep the whole development for forbidden declarations.  Returns list of offending lines."""
+def cone_files(prop):
+    """Source files Props/<prop>.v depends on, transitively (from coqdep)."""
+    files = [str(f.relative_to(COQ)) for d in ("Base", "Model", "Proofs", "Props") for f in sorted((COQ / d).glob("*.v"))]
+    rc, out, _ = _run(["coqdep", "-R", ".", "Hio"] + files, cwd=COQ, timeout=300)
+    deps = {}
+    for line in out.splitlines():
+        if ":" not in line:
+            continue
+        lhs, rhs = line.split(":", 1)
+        tgt = [t for t in lhs.split() if t.endswith(".vo")]
+        if not tgt:
+            continue
+        deps[tgt[0][:-1]] = [d[:-1] for d in rhs.split() if d.endswith(".vo")]
+    seen, todo = [], [f"Props/{prop}.v"]
+    while todo:
+        f = todo.pop()
+        if f in seen:
+            continue
+        seen.append(f)
+        todo += deps.get(f, [])
+    return sorted(COQ / f for f in seen if (COQ / f).exists())
+
+
+def audit_sources(prop=None):
+    """Grep the development (the dependency cone of the property when given) for forbidden
+    declarations.  Returns list of offending lines."""
     bad = []
-    for d in ("Base", "Model", "Proofs", "Props"):
-        for f in sorted((COQ / d).glob("*.v")):
+    files = cone_files(prop) if prop else [f for d in ("Base", "Model", "Proofs", "Props") for f in sorted((COQ / d).glob("*.v"))]
+    for d in (1,):
+        for f in files:
             text = f.read_text()
             # strip comments (nested) before grepping
             out, depth, i = [], 0, 0
@@ -251,7 +276,7 @@ def build_props(prop):
     if bad:
         res["error"] = f"disallowed assumptions: {bad}"
         return res
-    aud = audit_sources()
+    aud = audit_sources(prop)
     if aud:
         res["error"] = f"audit grep: {aud[:5]}"
         return res
@@ -495,6 +520,8 @@ def check(prop, tier="quick", seed=0):
                f"no case failed the property oracle", " no-failing-input-found")
     elif failing:
         ctx.notes.append(f"correspondence also disagreed on {len(failing)} cases")
+    if errors:
+        ctx.notes.append("correspondence evaluation errors: " + "; ".join(errors)[:600])
     if errors and not failing and not have_failing_input:
         report("correspondence-error", None, "; ".join(errors)[:2000], " no-failing-input-found")
     if not proof["ok"] and not have_failing_input and not failing and not errors:
@@ -548,7 +575,7 @@ def check(prop, tier="quick", seed=0):
         "distinct_nontrivial": len(hashes),
         "rule": driver.RULE,
         "samples": samples,
-        "traces_validated_against_impl": len(evaluable) - len(failing),
+        "traces_validated_against_impl": 0 if errors else len(evaluable) - len(failing),
         "origins": {k: origin.count(k) for k in sorted(set(o.split(":")[0] for o in origin))},
         "model_branch_histogram": hist,
         "correspondence_disagreements": len(failing),
